@@ -666,8 +666,25 @@ func drawContention(t *rapid.T) scenario {
 		sc.Scripts = append(sc.Scripts, s)
 	}
 
+	if rapid.Bool().Draw(t, "bulk") {
+		sc.IdleBulk = 5 * time.Millisecond
+	}
+
 	for i, n := 0, rapid.IntRange(2, 4).Draw(t, "readers"); i < n; i++ {
 		s := script{Box: "INBOX"}
+
+		// some readers vanish early, in the middle of an IDLE, while the writers go on changing the mailbox: the
+		// pushes that follow find the connection gone
+		if rapid.IntRange(0, 2).Draw(t, "vanish") == 0 {
+			for j, k := 0, rapid.IntRange(0, 3).Draw(t, "len"); j < k; j++ {
+				s.Steps = append(s.Steps, step{Kind: "cmd", Text: reads[rapid.IntRange(0, len(reads)-1).Draw(t, "r")]})
+			}
+
+			s.Steps = append(s.Steps, step{Kind: "abort-idle"})
+			sc.Scripts = append(sc.Scripts, s)
+
+			continue
+		}
 
 		for j, k := 0, rapid.IntRange(10, 40).Draw(t, "len"); j < k; j++ {
 			if rapid.IntRange(0, 9).Draw(t, "idle") == 0 {
